@@ -449,9 +449,7 @@ func (e *Exec) indexAddr(x Value, idx sym.Sc, it types.Type) *Value {
 	switch x := x.(type) {
 	case Slice:
 		i := e.boundsIndex(idx, it, x.Len)
-		p := x.St.cell(e.o(x) + i)
-		e.noteStoreCell(x.St, p)
-		return p
+		return x.St.cell(e.o(x) + i)
 	case *Value: // *array
 		if x == nil {
 			e.goPanic("invalid memory address or nil pointer dereference")
